@@ -15,7 +15,7 @@ def _mask_literal(lc: LaunchCtx, pc, mask_param: str):
   return None
 
 
-def dominated_by_mask(res: Result, lc: LaunchCtx, mask_param: str, static_name: str = None, skip_roots=()):
+def dominated_by_mask(res: Result, lc: LaunchCtx, mask_param: str, static_name: str = None, skip_roots=(), writes_only=False):
   """Every array access (other than reading the mask itself) is dominated by mask[worldid].
 
   The repo's idiom `if wp.static(mask is not None): if not mask_in[worldid]: return` makes the gate conditional on a
@@ -25,6 +25,8 @@ def dominated_by_mask(res: Result, lc: LaunchCtx, mask_param: str, static_name: 
   for a in lc.keval.accesses:
     if a.root == mask_param or a.root in skip_roots:
       continue
+    if writes_only and not a.is_write:
+      continue  # reading another world's data changes nothing; only its effects (writes) must be gated
     n += 1
     m = _mask_literal(lc, a.pc, mask_param)
     ok = m is not None
